@@ -59,7 +59,9 @@ CLAIMS["C11"] = proof(
 CLAIMS["C13"] = proof(
     "First clause proved for every history and every oracle stream: C13_closed_hist — while a starved lock operation is alive try_lock/try_lock_arc return None, also while bit 0 is clear. "
     "Schedule half of the try_lock clause proved: C13_closed_sched — on the micro-step machine of C05 (coq/Sched/MutexEvSched.v), in every reachable state of every schedule, while some lock operation holds a starvation ticket the word is not 0 and the "
-    "compare_exchange(0,1) of a try_lock of any thread fails. The ordering clause (no later operation overtakes the starved one under serialised polls) is not proved; it is decided by the harness monitor on the implementation and the correspondence. " + CORR, NOTE)
+    "compare_exchange(0,1) of a try_lock of any thread fails. The ordering clause is proved for every history and every oracle stream (polls serialised: the poll-granular machine): C13_order_hist (coq/Proofs/MutexOrder.v) — if A holds a starvation ticket after ops1 and still holds it after ops1 ++ ops2, "
+    "no poll of a lock operation created after ops1 returns Ready; from three invariants of lock_ops that hold in every reachable state (C13_queue_invariants): the queue is sorted by listener id and only its head can be notified; "
+    "word >= 2 and an entry notified implies the mutex is unlocked (so the starved operation never has to re-register); later operations' entries are behind the starved one's. The harness monitor evaluates the same clause on the implementation. " + CORR, NOTE)
 CLAIMS["C15"] = proof(
     "Proved for every history of the Mutex, Semaphore and RwLock machines: strong count = handles + owned guards + owning futures (C15_*_count); dropped exactly when the count reaches 0, at most once, "
     "for all three (C15_*_dropped_once; for the RwLock with the borrow invariant of RwDrop.v: every future except an UpgradeArc and every borrowed guard keeps a user handle alive, an UpgradeArc owns its handle until it completes); "
